@@ -119,7 +119,7 @@ def main(prop, prop_v, tier, seed, replay, scenarios, own_prefixes, known_prefix
                                        "sequencer model <-> implementation correspondence no longer checks (%d histories differ); the monitors of %s found no history on which the property itself fails.\nfirst difference (history line %d):\nimpl : %s\nmodel: %s\n\nhistory:\n%s\n" % (len(diffs), prop, j, a, b, "\n".join(hist)))
                     res.violation(p, "model/implementation correspondence broken (%d histories)" % len(diffs), no_input=True)
     if not ok and not res.violations:
-        res.violation(getattr(res, "coq_failure", L.write_replay(prop, "coq_failure.txt", "proof stage failed")),
+        res.violation(getattr(res, "coq_failure", None) or L.write_replay(prop, "coq_failure.txt", "proof stage failed"),
                       "theorems of %s no longer check; the differential run and the monitors found no failing history" % prop_v, no_input=True)
     cov.update({
         "evaluations": nhist, "distinct_nontrivial": len(nontrivial),
